@@ -7,8 +7,11 @@ from engine import coq_bool, coq_list
 IMPORTS = ["Lib.Base", "Lib.PyStr", "Model.Session", "Model.SessionCheck"]
 
 
-def one_history(ctx, rng, plan, oidc, roi, observers, label, fixed_ops=None, rules="explicit", empty3=False, deny=False):
-    rs = sess.RealSession(oidc=oidc, revoke_refresh_on_issue=roi, rules=rules, empty3=empty3, deny=deny)
+def one_history(ctx, rng, plan, oidc, roi, observers, label, fixed_ops=None, rules="explicit", empty3=False, deny=False,
+                two_redirects=False):
+    rs = sess.RealSession(oidc=oidc, revoke_refresh_on_issue=roi, rules=rules, empty3=empty3, deny=deny, two_redirects=two_redirects)
+    if two_redirects:
+        ctx.count("registered-redirect-uris-per-client:2")
     ctx.count("deny_unknown_scopes:" + ("provider-on/client_1-off" if deny else "off"))
     ctx.count("rules:" + rules)
     ctx.count("client_12-allowed-scopes:" + ("empty" if empty3 else "absent"))
@@ -42,8 +45,11 @@ def one_history(ctx, rng, plan, oidc, roi, observers, label, fixed_ops=None, rul
                 fin(rs, rec)
         term = "(%s, %s, %s, %s, %s, %s)" % (coq_bool(oidc), coq_bool(roi), coq_bool(empty3), coq_bool(rules == "handler"), coq_list(pairs), sess.coq_state(rs))
         record = {"label": label, "oidc": oidc, "revoke_refresh_on_issue": roi, "usage_rules": rules, "client_12_allowed_empty": empty3, "deny_unknown_scopes": deny, "ops": rec}
+        logs = iter(rs.cookie_log)
         for op, out in rec:
             ctx.count("op:" + op[0])
+            if op[0] == "authzc":
+                count_cookie_op(ctx, next(logs), op, out)
             ctx.count("out:" + out[0] + (":" + str(out[1]) if out[0] in ("err", "exc") else ""))
         minted = sum(1 for op, out in rec if op[0] == "proc" and out[0] == "ok")
         ctx.case_seen(record, nontrivial=minted > 0)
@@ -52,21 +58,96 @@ def one_history(ctx, rng, plan, oidc, roi, observers, label, fixed_ops=None, rul
         rs.close()
 
 
-def run_histories(ctx, n_random, length, observers_factory, structured=(), seed_label="rnd", focus_of=None):
-    """focus_of(i): the shape of the i-th random history ("mixed" or "multi", see sess.gen_history); default: all mixed"""
+def count_cookie_op(ctx, log, op, out):
+    """coverage of the cookie-authorization class (what was asked relative to the grant whose cookie came back)"""
+    _, prev, user, client, scope, redirect, fresh = op
+    if not log["cookie"]:
+        ctx.count("cookie-authz:no-cookie:redirect-" + ("second" if redirect.endswith("cb2") else "first") + ":" + out[0])
+        return
+    held = log["held"] or {"scope": [], "redirect_uri": None}
+    a, b = set(scope), set(held["scope"])
+    rel = ("same" if list(scope) == list(held["scope"]) else "reordered" if a == b else "narrower" if a < b else "wider" if a > b
+           else "disjoint" if not (a & b) else "overlapping")
+    ctx.count("cookie-authz:scope-" + rel)
+    ctx.count("cookie-authz:redirect-" + ("same" if redirect == held["redirect_uri"] else "other-registered"))
+    ctx.count("cookie-authz:client-" + ("same" if client == log["grant"][1] else "other"))
+    ctx.count("cookie-authz:user-" + ("same" if user == log["grant"][0] else "other"))
+    ctx.count("cookie-authz:nonce-" + ("new" if fresh else "same"))
+    ctx.count("cookie-authz:outcome-" + (out[0] if out[0] != "ok" else "code-in-the-same-grant" if log["grants_after"] == log["grants_before"] else "code-in-a-new-grant"))
+
+
+def cookie_structured(scope_variants=True):
+    """Authorizing again within a browser session, as fixed histories (both flavours; the usage rules reach the provider in
+    one of the three provider-wide ways): a login whose code stays pending, then an authorization request with the session
+    cookie that (a) is the identical request, (b) names the client's other registered redirect_uri, (c) asks for a narrower
+    scope, (d) for a wider one, (e) comes for another client; then EVERY code is presented with each registered redirect_uri
+    (the foreign one first in half of the histories), and whatever was minted is introspected."""
+    cases = []
+    users = ["diana", "babs"]
+    k = 0
+    for oidc in (True, False):
+        for cl in ("client_1", "client_2"):
+            cb, cb2 = sess.registered_redirects(cl)
+            base = ["openid", "email", "offline_access", "phone"]
+            variants = [("identical", base, cb, False, cl), ("other-redirect", base, cb2, True, cl), ("other-redirect-same-nonce", base, cb2, False, cl)]
+            if scope_variants:
+                variants += [("narrower", ["openid"], cb, True, cl), ("narrower-same-nonce", ["openid", "email"], cb, False, cl),
+                             ("wider", base + ["profile", "address"], cb, False, cl), ("reordered", list(reversed(base)), cb, False, cl),
+                             ("other-client", base, None, True, "client_12")]
+            for vname, sc2, red2, fresh, cl2 in variants:
+                u = users[k % 2]
+                first_cb = cb if k % 3 else cb2
+                if first_cb == cb2:      # the login used the second registered redirect_uri
+                    red2 = {cb: cb2, cb2: cb}.get(red2, red2)
+                red2 = red2 or sess.registered_redirects(cl2)[k % 2]
+                ops = [("authzc", 0, u, cl, base, first_cb, True),           # no session yet: no cookie
+                       ("authzc", 0, u, cl2, sc2, red2, fresh)]              # the cookie of the first authorization comes back
+                order = ["alt", "same"] if k % 2 else ["same", "alt"]
+                n = 0
+                for red in order:
+                    for code, owner in ((0, cl), (1, cl2)):
+                        ops += [("tparse", owner, ("tok", code), red), ("proc", n, None)]
+                        n += 1
+                ops += [("tparse", cl, ("tok", 0), "same"), ("proc", n, None)]      # and once more
+                ops += [("introspect", cl2 if i % 2 else cl, ("tok", i)) for i in range(2, 10)]
+                cases.append(("cookie-%s-%s-%s" % ("oidc" if oidc else "oauth2", cl, vname), oidc, False, ops, ["explicit", "implied", "handler"][k % 3]))
+                k += 1
+        if scope_variants:
+            # the first authorization is granted NOTHING (no requested scope is allowed for the client); the identical request
+            # comes back with the cookie; then a request for more
+            for cl, sc, kw in (("client_12", ["openid", "email"], {"empty3": True}),) + ((("client_1", ["phone", "address"], {}),) if not oidc else ()):
+                cb, cb2 = sess.registered_redirects(cl)
+                ops = [("authzc", 0, "diana", cl, sc, cb, True), ("authzc", 0, "diana", cl, sc, cb, False),
+                       ("authzc", 0, "diana", cl, sc + ["profile"], cb, False)]
+                for code in (1, 0, 2):
+                    ops += [("tparse", cl, ("tok", code), "same"), ("proc", [1, 0, 2].index(code), None)]
+                ops += [("introspect", cl, ("tok", i)) for i in range(3, 9)]
+                cases.append(("cookie-%s-%s-nothing-granted" % ("oidc" if oidc else "oauth2", cl), oidc, False, ops, ["explicit", "handler"][k % 2], kw))
+                k += 1
+    return cases
+
+
+def run_histories(ctx, n_random, length, observers_factory, structured=(), seed_label="rnd", focus_of=None, cookie=False):
+    """focus_of(i): the shape of the i-th random history ("mixed", "multi" or "cookie", see sess.gen_history); default: all
+    mixed.  cookie: the providers register two redirect_uris per client and the random part of every history contains
+    authorization requests that carry a session cookie (needs observers that understand the "authzc" operation)"""
     rng = ctx.rng
     cases = []
     k = 0
     RULES = ["explicit", "implied", "per-client", "handler"]
-    for j, (label, oidc, roi, ops) in enumerate(structured):
-        cases.append(one_history(ctx, rng, None, oidc, roi, observers_factory(), label, fixed_ops=ops, rules=RULES[j % 4]))
+    for j, entry in enumerate(structured):
+        label, oidc, roi, ops = entry[:4]
+        rules = entry[4] if len(entry) > 4 else RULES[j % 4]      # a structured history may name the usage-rule delivery it runs under
+        kw = entry[5] if len(entry) > 5 else {}                   # ... and the registration variant (empty3)
+        cases.append(one_history(ctx, rng, None, oidc, roi, observers_factory(), label, fixed_ops=ops, rules=rules,
+                                 two_redirects=cookie, **kw))
     for i in range(n_random):
         oidc = (i % 3 != 2)
         roi = (i % 5 == 4)
         focus = focus_of(i) if focus_of else "mixed"
         ctx.count("history-shape:" + focus)
-        plan = sess.gen_history(rng, rng.randint(*length), focus=focus)
+        plan = sess.gen_history(rng, rng.randint(*length), focus=focus, p_cookie=0.4 if cookie else 0.0)
         cases.append(one_history(ctx, rng, plan, oidc, roi, observers_factory(), "%s-%d" % (seed_label, i), rules=RULES[(i // 3) % 4],
-                                 empty3=(i % 4 == 1), deny=(i % 4 == 3)))
+                                 empty3=(i % 4 == 1), deny=(i % 4 == 3), two_redirects=cookie))
     ctx.coq_check_cases(IMPORTS, "hist", "chk_hist", cases, shard=12, label="hist", diag="diag_hist")
     return cases
